@@ -297,7 +297,12 @@ func (r *reiter) Tags(ctx context.Context, repo string, startAfter string) ocire
 	return reiterSeq(r, r.Interface.Tags(ctx, repo, startAfter), func(s string) string { return s })
 }
 func (r *reiter) Referrers(ctx context.Context, repo string, d ociregistry.Digest, artifactType string) ociregistry.Seq[ociregistry.Descriptor] {
-	return reiterSeq(r, r.Interface.Referrers(ctx, repo, d, artifactType), func(x ociregistry.Descriptor) string { return r.cat.cidOfDigest(x.Digest) })
+	return reiterSeq(r, r.Interface.Referrers(ctx, repo, d, artifactType), func(x ociregistry.Descriptor) string {
+		if x.Digest == "" {
+			return ""
+		}
+		return r.cat.cidOfDigest(x.Digest)
+	})
 }
 
 // Upload session names starting with "e" stand for the EMPTY upload id, names starting with
@@ -650,13 +655,13 @@ func (fr *fRun) runConc(c fCase, mem ociregistry.Interface) {
 	close(start)
 	wg.Wait()
 	close(panics)
-	for p := range panics {
-		fr.write(ev{"op": "panic", "inop": "concurrent stage", "panic": p})
-	}
 	for _, k := range cc.ord {
 		o := cc.seen[k]
 		fr.write(ev{"op": "cscope", "via": "wrapper", "g": o.g, "m": o.m, "r": names[o.g], "br": o.r,
 			"scope": scopes[o.g], "bscope": o.bscope, "count": o.count})
+	}
+	for p := range panics {
+		fr.write(ev{"op": "panic", "inop": "concurrent stage", "panic": p})
 	}
 }
 
